@@ -135,23 +135,30 @@ extern "C" void harness() {
     CHECK((h == g) == want, "operator== is symmetric (the reverse comparison gives the same verdict)");
 #elif Q == 3
     CHECK(g == g, "operator== is reflexive");
-#elif Q == 4 || Q == 5
-    // a copy equals its source and is unaffected by later changes to the source
-#if Q == 4
+#elif Q == 4
+    { G c = g; CHECK(c == g, "a copy-constructed graph equals its source"); }
+#elif Q == 5
+    { G c(0); c = g; CHECK(!(c != g), "a copy-assigned graph equals its source"); }
+#elif Q == 6 || Q == 7
+    // a copy is unaffected by later changes to its source (observed through the copy's own observers)
+#if Q == 6
     G c = g;
 #else
-    G c(0); c = g;
+    G c(1); c = g;
 #endif
     if (NG > 0) {
         unsigned a = nd(NG);
         g.removeVertexFromEdgeList(a);
         bool had = false; for (unsigned q = 0; q < NM; ++q) if (q < NG && (A.C[a][q] || A.C[q][a])) had = true;
         if (had) REACH("the source lost edges after the copy was taken");
+        unsigned i = nd(NG), j = nd(NG);
+        CHECK(c.hasEdge(i, j) == (A.C[i][j] != 0), "the copy still has exactly the edges its source had when copied");
+        size_t cnt = 0; for (unsigned p = 0; p < NM; ++p) for (unsigned q = (UND ? p : 0); q < NM; ++q) if (p < NG && q < NG) cnt += A.C[p][q];
+        CHECK(c.getEdgeNumber() == cnt && c.getSize() == NG, "the copy keeps its edge and vertex counts");
+#if HASLABEL
+        if (A.C[i][j]) CHECK(c.edgeLabels.at(UND && i > j ? Edge{j, i} : Edge{i, j}) == A.lab[i][j], "the copy keeps the labels its source had when copied");
+#endif
     }
-    G fresh(NG); Abs F; build(fresh, NG, F);      // an independent graph to compare the copy with
-    const bool want = same_abstraction(NG, A, NG, F);
-    if (want) REACH("the copy is compared with an equal graph"); else REACH("the copy is compared with a different graph");
-    CHECK((c == fresh) == want, "a copy keeps the value its source had when it was copied");
 #endif
     REACH("end of harness");
 }
